@@ -111,9 +111,13 @@ CHECKS["C06"] = dict(_db("c06", 64, 3200, "a grouped query (fewer dims / longer 
 CHECKS["C07"] = dict(_db("c07", 64, 3200, "a query with ASOF/UNTIL returns a period outside (asOf, until] or misses/changes one inside it"),
     rule=("as C06 with ASOF (always) and UNTIL (2/3) bounds: aligned, +1ns, unaligned, before/inside/after the data, occasionally "
           "inverted; 5 queries per history; real DB vs spec_rows incl. planning errors. non-trivial: >= 3 points"))
-CHECKS["C08"] = dict(_db("c08", 64, 3200, "a query with WHERE over stored dims does not equal the same query over only the matching points"),
+CHECKS["C08"] = dict(_db("c08", 64, 3200, "a query with WHERE over stored dims does not equal the same query over only the matching points, a HAVING query is not the filtered HAVING-free query (or exposes the helper column), or an IN-subquery differs from IN over the values the subquery returns"),
     rule=("as C06 with a WHERE predicate over the dims of the stored key (=, <>, <, >, <=, >=, IN, IS NULL, AND/OR/NOT), evaluated by "
           "the real goexpr on each point's stored key as an oracle column; 4 queries per history. non-trivial: >= 3 points"))
+CHECKS["C08"]["stages"] = CHECKS["C08"]["stages"] + [dict(sub="c08x", quick=48, thorough=2400, shrink=["points"], parallel=16, shards=16, seed_salt=808)]
+CHECKS["C08"]["rule"] += (" stage c08x (relations between two queries on one database, Model/Filter.v): 4 HAVING pairs per history (Q vs Q HAVING f op c, f a selected non-BOUNDED field, "
+                          "op in > >= < <= = <>, c in -3..8; WHERE/GROUP BY/period variants, SELECT * included) and up to 4 IN-subquery pairs (d IN (SELECT d FROM t [WHERE] [GROUP BY d] [HAVING ...]) "
+                          "vs d IN (<the distinct values the subquery returns when run alone with _points as its select list>); subqueries returning a nil value are skipped).")
 def c02_finding_key(case):
     """array-values-inserted-twice: the ONLY deviation of the case is that acknowledged points with an array of n >= 2
     values are reflected 2n-1 times (every other entry exactly as the model says, no hung child)."""
@@ -316,16 +320,17 @@ CHECKS["C13"] = dict(
     stages=[dict(sub="c13", quick=5, thorough=60, shards=1)],
     assumptions=["completeness is judged against a fault-free run of the same query on the same node(s) (the leader's oracle run is repeated until its own statistics report every partition)",
                  "embedded: context deadlines already expired, and expiring while the k-th delivered row is being consumed (k = 0, 1, 2, n/2, n), on memstore-only, file-only and split data, with and without GROUP / ORDER stages",
-                 "cluster (in-process, 3 partitions): every subset of partitions answering with an error, and each single partition answering slower than the caller's deadline",
+                 "cluster (in-process, 3 partitions): every subset of partitions answering with an error or with a retriable error on all of its handlers, and each single partition answering slower than the caller's deadline",
                  "web: web.Configure on httptest with a 1ns query timeout and with a 200-byte response limit, /run and /immediate"],
     trusted=_DB_TRUSTED,
     what_fails="a result that omits data was returned without an error, without the partition being listed as missing, or with HTTP 200",
-    rule=("5 generated tables/datasets x 2-3 queries x 6 deadline placements (embedded); 1 cluster x 2-3 queries x (8 error subsets + 3 slow partitions); 3 web configurations x 2 routes. "
+    rule=("5 generated tables/datasets x 2-3 queries x 6 deadline placements (embedded); 1 cluster x 2-3 queries x (8 error subsets + 8 retriable-error subsets + 3 slow partitions); 3 web configurations x 2 routes. "
           "Each outcome (complete?, error?, missing partition listed?, HTTP status) must satisfy: complete or told. non-trivial: the result is incomplete / a fault was injected"))
 
 CHECKS["C20"] = dict(
     stages=[dict(sub="c20codec", quick=400, thorough=20000, shrink=["a", "b", "c"]),
-            dict(sub="c20rpc", quick=24, thorough=600, shrink=["points", "queries"], parallel=16, shards=8)],
+            dict(sub="c20rpc", quick=24, thorough=600, shrink=["points", "queries"], parallel=16, shards=8),
+            dict(sub="c20same", quick=32, thorough=1600, shrink=["points"], parallel=16, shards=16, seed_salt=2020)],
     finding_key=db_finding_key,
     assumptions=["c20codec: every generated expression is sent through the real rpc.Codec (msgpack) as a field of a RemoteQueryResult; the DECODED expression object then runs the C05 unit "
                  "correspondence (Update over three batches, Merge, Get) against the model of the ORIGINAL, with IF conditions that are real goexpr trees evaluated on generated dims; "
@@ -335,4 +340,6 @@ CHECKS["C20"] = dict(
     trusted=["msgpack, gRPC framing and snappy are external: what is proved is that zenodb's use of them restores every behaviour-relevant field (codec table) and that the modelled encode/decode is the identity"] + _DB_TRUSTED,
     what_fails="an expression, message, row or query result that crossed the RPC boundary no longer behaves like / equals the original",
     rule=("c20codec: 400 random expression trees (whole modelled grammar incl. unary math and IF over generated goexpr predicates) x 3 batches of points, + 240 messages; "
-          "c20rpc: 24 generated tables/datasets with 5 queries each through the real RPC stack. non-trivial: expression size >= 2 / >= 3 points"))
+          "c20rpc: 24 generated tables/datasets with 5 queries each through the real RPC stack; "
+          "c20same: 32 datasets x 8 generated SQL queries (field subsets, WHERE, GROUP BY incl. dimensions some points lack, HAVING, ORDER BY with 1-4 asc/desc keys, LIMIT/OFFSET) answered over RPC and "
+          "in-process: same field names, same rows (timestamps, keys, values) in the same order (relation ROrdered of Model/Filter.v). non-trivial: expression size >= 2 / >= 3 points"))
